@@ -123,7 +123,8 @@ func (w *World) lowerFunc(pkg *Pkg, key string, fd *ast.FuncDecl, fc *FuncContra
 		locals: map[types.Object]string{}, assigned: map[string]bool{}, callOrd: map[string]int{},
 		oldNeeded: map[string]Sort{}, anchors: map[string]int{}, usedCl: map[*Clause]bool{},
 		trusted: map[string]bool{}, specLocals: map[string]types.Object{}, panicOrd: map[string]int{},
-		constGlobals: map[string]string{}, nonNil: map[string]bool{}, sweep: sweep}
+		constGlobals: map[string]string{}, nonNil: map[string]bool{}, sweep: sweep,
+		localTypes: map[string]types.Type{}, constVals: map[types.Object]Value{}, assignCount: countAssignments(pkg.Info, fd.Body)}
 	if fc != nil && fc.NoSweep {
 		e.sweep = false
 	}
